@@ -519,8 +519,11 @@ func (d *Datastore) TransactionCancel(ctx context.Context, transactionId string)
 
 func loadIntendedStoreHighestPrio(ctx context.Context, tscc tree.TreeCacheClient, r *tree.RootEntry, pathKeySet *tree.PathSet, skipIntents []string) error {
 
-	// Get all entries of the already existing intent
-	cacheEntries := tscc.ReadCurrentUpdatesHighestPriorities(ctx, pathKeySet.GetPaths(), 2)
+	// Get the entries of the other intents for the involved paths. The intents of the transaction
+	// are skipped below, and each of them may occupy one of the highest priorities of a path: read
+	// one priority more than there are intents in the transaction, so that the best of the
+	// other intents is among the result.
+	cacheEntries := tscc.ReadCurrentUpdatesHighestPriorities(ctx, pathKeySet.GetPaths(), uint64(len(skipIntents))+1)
 
 	flags := tree.NewUpdateInsertFlags()
 
